@@ -504,6 +504,20 @@ class Scheduler:
         return job.state
 
     def submit(self, job: Job) -> Optional[Job]:
+        # A job that asks a resource for more than it can ever provide would
+        # never start (its requests on a same resource are taken one by one)
+        requested: Dict[int, int] = {}
+        for dependency in job.dependencies:
+            capacity = getattr(dependency.origin, "capacity", None)
+            if capacity is not None:
+                key = id(dependency.origin)
+                requested[key] = requested.get(key, 0) + dependency.count
+                if requested[key] > capacity:
+                    raise ValueError(
+                        f"{job} requests {requested[key]} of {dependency.origin}"
+                        f" (capacity {capacity})"
+                    )
+
         # Wait for the future containing the submitted job
         logger.debug("Registering the job %s within the scheduler", job)
         otherFuture = asyncio.run_coroutine_threadsafe(
